@@ -49,7 +49,7 @@ def rule_view_defs(ctx):
             if not INFO_VIEW.fullmatch(txt):
                 ctx.report(f"view:{name}", where, f"`State::{name}` changed: `{txt[:160]}`", {})
     fn = A.get_fn(ctx.files, UTILS, "State::field_idents")
-    txt = A.render_norm(fn.block["stmts"][-1]["0"])
+    txt = A.render_norm(A.norm_ast(fn.block["stmts"][-1]["0"]))
     ctx.instance("State::field_idents", sample=txt)
     ok = re.fullmatch(
         r'if self\.derive_type==DeriveType::Named\{self\.fields\.iter\(\)\.map\(\|(%s)\|\1\.ident\.as_ref\(\)\.expect\("[^"]*"\)\.to_token_stream\(\)\)\.collect\(\)\}else \{let count=self\.fields\.len\(\);\(0\.\.count\)\.map\(\|(%s)\|Index::from\(\2\)\.to_token_stream\(\)\)\.collect\(\)\}' % (V, V),
